@@ -63,9 +63,10 @@ func zzC04NoPanic(ds []zzC04Decoder) {
 	d := ds[i]
 	buf := zzsym.BytesUpTo("buf", zzsym.Param("B_"+d.name))
 	if first := zzsym.Param("FIRST"); first >= 0 {
-		// input class "buffers whose first byte is FIRST" (e.g. 0xFF: a 9-byte count prefix), used where the
-		// fully arbitrary buffer of that size has too many paths
-		zzsym.Assume(len(buf) >= 1 && buf[0] == byte(first))
+		// input class "buffers whose byte at offset AT is FIRST" (e.g. 0xFF where a count starts: a 9-byte count
+		// prefix), used where the fully arbitrary buffer of that size has too many paths
+		at := zzsym.Param("AT")
+		zzsym.Assume(len(buf) > at && buf[at] == byte(first))
 	}
 	src := common.NewZeroCopySource(buf)
 	err := d.dec(src)
